@@ -307,7 +307,10 @@ Definition case_mon (k : pcase) : bool :=
       | Some (p, h, oracle) =>
           (Z.of_nat (length p) =? size) && bytes_eqb h (sha256 p) && bytes_eqb h oracle
       end
-  | KConsts _ _ _ _ => true
+  | KConsts _ _ based maxd =>
+      (* the one call site, backoff(baseLRORetryDelay, maxLRORetryDelay, retries),
+         must lie inside the guard of the theorems *)
+      backoff_guard based maxd
   | KFlags f qb o g => c18_flags f qb o g
   end.
 
